@@ -526,7 +526,12 @@ def do_check(cid, tier, seed):
             for idx, sub, cls, err in w.crashes:
                 if idx is None:
                     log("worker failed at startup: " + cls + "\n" + err); raise SystemExit(2)
-                plan = json.loads(subprocess.run([exe, "dump", profile, str(seed), str(idx)], stdout=subprocess.PIPE, text=True).stdout)
+                dumped = subprocess.run([exe, "dump", profile, str(seed), str(idx)], stdout=subprocess.PIPE, stderr=subprocess.PIPE, text=True, errors="replace")
+                try:
+                    plan = json.loads(dumped.stdout)
+                except ValueError:
+                    print("HARNESS-ERROR plan generation itself fails for %s idx %d: %s" % (profile, idx, crash_excerpt(dumped.stderr, 600))); rc_gen_fail = True
+                    found.append((engine, exe, "harness:generate-crashed", {"idx": idx}, crash_excerpt(dumped.stderr, 600))); continue
                 if sub: plan["sub"] = sub
                 found.append((engine, exe, cls, plan, crash_excerpt(err)))
         stats["worker_restarts"] = stats.get("worker_restarts", 0) + sum(w.restarts for w in ws)
